@@ -1570,6 +1570,10 @@ class QuicConnection:
             tls.Epoch.HANDSHAKE: QuicStream(),
             tls.Epoch.ONE_RTT: QuicStream(),
         }
+        # When starting over after a Retry or Version Negotiation packet, the
+        # packets sent so far no longer count as in flight.
+        for space in self._loss.spaces:
+            self._loss.discard_space(space)
         self._spaces = {
             tls.Epoch.INITIAL: QuicPacketSpace(),
             tls.Epoch.HANDSHAKE: QuicPacketSpace(),
